@@ -102,6 +102,15 @@ InvHij   == hk # 0 => /\ HBOM[hk] + hd - 1 = ldn
                       /\ hd >= 1 /\ hd <= 30
                       /\ (hk < HNMON => ldn < HBOM[hk + 1])
 InvHijIn == (ldn >= HBOM[1] /\ ldn < HBOM[HNMON] + 29) <=> hk # 0
+\* consecutive days map to consecutive values in every calendar (C02): the value of each calendar at n+1,
+\* taken back to the timeline by that calendar's own closed form, is one more than at n -- which makes every
+\* projection injective, hence every round trip through it the identity
+SuccProps == [][ /\ RD(y', m', d') = RD(y, m, d) + 1
+                 /\ IsoRD(iy', iw', wd') = IsoRD(iy, iw, wd) + 1
+                 /\ RDJan0(y') + yd' = RDJan0(y) + yd + 1
+                 /\ RD(y', m', NthWdOfMonth(y', m', c', wd')) = RD(y, m, NthWdOfMonth(y, m, c, wd)) + 1
+                 /\ (hk # 0 /\ hk' # 0) => HBOM[hk'] + hd' = HBOM[hk] + hd + 1
+                 /\ bcum' - bcum = (IF wd' <= 5 THEN 1 ELSE 0) ]_vars
 \* anchors (facts of the outside world, independent of both formulations)
 Anchors  == /\ (y = 1970 /\ m = 1 /\ d = 1) => (wd = 4 /\ ldn = 141427 /\ mdn = 719529 /\ uday = 0) \* Thursday; MDN 719529
             /\ (y = 2000 /\ m = 1 /\ d = 1) => (wd = 6 /\ jdn2 = 4903089) \* Sat, JDN 2451544.5
